@@ -196,6 +196,22 @@ func BuildCase(res *Result) (term string, steps int, problem string) {
 			}
 		}
 	}
+	// the answer to an EMPTY set (see the stale-output note) can still be in the hands of an abandoned broker worker
+	// when the run ends: such a trailing step without any point after it is not part of the log either
+	for g, evs := range by {
+		n := len(evs)
+		if n > 1 && evs[n-1].Kind == "bp.response" {
+			empty := true
+			for _, p := range evs[n-1].Set {
+				if len(p.Msgs) > 0 {
+					empty = false
+				}
+			}
+			if empty {
+				by[g] = evs[:n-1]
+			}
+		}
+	}
 	// first-pass errors of the topic workers are environment results for m_pres
 	for _, g := range order {
 		evs := by[g]
@@ -318,6 +334,8 @@ func BuildCase(res *Result) (term string, steps int, problem string) {
 		case strings.HasPrefix(k, "bp."):
 			var stepsB, cur []string
 			var in *Ev
+			var rolled bool
+			var rollEpoch, bumpsAtRoll, bumps int64
 			fl := func() {
 				if in == nil {
 					return
@@ -351,7 +369,13 @@ func BuildCase(res *Result) (term string, steps int, problem string) {
 					}
 					input = fmt.Sprintf("(BResp %s %s)", t.pset(in.Set), r)
 				}
-				stepsB = append(stepsB, fmt.Sprintf("mkBS %s %s %s %s %s %s %s %s %s %s %s", input, z(int64(in.TxnEpoch)), z(int64(in.BufEpoch)),
+				// the epoch a rollOver inside this step read may be fresher than the one at the step's start (another
+				// goroutine failed a sequenced message meanwhile): it is an environment read, taken from the log
+				ep := int64(in.TxnEpoch)
+				if rolled {
+					ep = rollEpoch - bumpsAtRoll
+				}
+				stepsB = append(stepsB, fmt.Sprintf("mkBS %s %s %s %s %s %s %s %s %s %s %s", input, z(ep), z(int64(in.BufEpoch)),
 					z(int64(in.BufCount)), z(int64(in.BufBytes)), b(in.Closing), b(in.TimerSet), b(in.TimerFired), b(in.Overflow), b(in.Retrying), list(cur)))
 				steps++
 			}
@@ -361,8 +385,18 @@ func BuildCase(res *Result) (term string, steps int, problem string) {
 				case "bp.recv", "bp.closed", "bp.timer", "bp.flush", "bp.response":
 					fl()
 					in, cur = &evs[i], nil
+					rolled, rollEpoch, bumpsAtRoll, bumps = false, 0, 0, 0
 					if e.Kind == "bp.flush" {
 						cur = append(cur, "OBridge "+t.idParts(e.Set))
+					}
+				case "bp.rollover":
+					rolled, rollEpoch, bumpsAtRoll = true, int64(e.BufEpoch), bumps
+				case "return.error":
+					if e.Msg != nil && e.Msg.HasSeq {
+						bumps++
+					}
+					if o, ok := t.commonObs(e); ok {
+						cur = append(cur, o)
 					}
 				case "bp.waitForSpace":
 					n := 1
